@@ -9,7 +9,14 @@ The replay driver relies on these facts about the spec functions of Ops.lean:
   `applyS_stops_at_first_failing`, `applyS_append_err`;
 * `filteredApplyS` errs when the clause is ill-formed: `filteredApplyS_err_iff`;
 * `sliceS` / `selectS` / `dropS` / `copyS` reject exactly the invalid requests:
-  `sliceS_err_iff`, `selectS_err_iff`, `dropS_err_iff`, `copyS_err_iff`.
+  `sliceS_err_iff`, `selectS_err_iff`, `dropS_err_iff`, `copyS_err_iff`;
+* Sort / Distinct have no acceptable result exactly when a named column is unknown: `sortKeys_none_iff`,
+  `isSortedResult_unknown`, `distinctKeys_none_iff`, `isDistinctResult_unknown`;
+* `groupAggS` rejects unknown grouping columns, unknown aggregation columns, and — later — taken result names and
+  functions not defined for the column type: `groupAggS_err_iff`;
+* `applyInstr` reads an instruction by its number of source columns and rejects unknown ones: `instrArity`,
+  `applyInstr_no_src1`, `applyInstr_unknown_src1`, `applyInstr_unknown_src2`;
+* `equalsS` is false when the row counts or the column names differ: `equalsS_shape`.
 -/
 namespace QF.Props.C10Sticky
 open QF
@@ -185,6 +192,269 @@ theorem copyS_err_iff (f : LFrame) (dst src : Bytes) :
       simp only [this, Bool.false_eq_true, if_false]
       cases hl : legalName dst <;> simp [hd]
 
+/-! ## Sort, Distinct, GroupBy / Aggregate, Equals, Apply: which requests the spec rejects -/
+
+theorem mapM_option_none_iff {α β : Type} (g : α → Option β) (l : List α) :
+    l.mapM g = none ↔ ∃ x ∈ l, g x = none := by
+  induction l with
+  | nil => simp
+  | cons x xs ih =>
+    rw [List.mapM_cons]
+    cases hx : g x with
+    | none => simp [hx]
+    | some y =>
+      cases hxs : xs.mapM g with
+      | none =>
+        have := ih.1 hxs
+        simp [hx, this]
+      | some ys =>
+        have h2 : ¬ ∃ x ∈ xs, g x = none := fun h => by rw [ih.2 h] at hxs; cases hxs
+        simp [hx]
+        intro a ha
+        exact fun h => h2 ⟨a, ha, h⟩
+
+theorem find?_none_iff (f : LFrame) (n : Bytes) : f.find? n = none ↔ f.has n = false := by
+  unfold LFrame.has
+  cases f.find? n <;> simp
+
+theorem mapM_find_none_iff (f : LFrame) (names : List Bytes) :
+    names.mapM f.find? = none ↔ ∃ n ∈ names, f.has n = false := by
+  rw [mapM_option_none_iff]
+  constructor
+  · rintro ⟨n, hn, h⟩; exact ⟨n, hn, (find?_none_iff f n).1 h⟩
+  · rintro ⟨n, hn, h⟩; exact ⟨n, hn, (find?_none_iff f n).2 h⟩
+
+/-- **Sort** has keys to sort by iff every order names a column of the frame. -/
+theorem sortKeys_none_iff (f : LFrame) (os : List Order) :
+    sortKeys f os = none ↔ ∃ o ∈ os, f.has o.col = false := by
+  unfold sortKeys
+  rw [mapM_option_none_iff]
+  constructor
+  · rintro ⟨o, ho, h⟩
+    refine ⟨o, ho, (find?_none_iff f o.col).1 ?_⟩
+    cases hf : f.find? o.col with
+    | none => rfl
+    | some c => simp [hf] at h
+  · rintro ⟨o, ho, h⟩
+    refine ⟨o, ho, ?_⟩
+    rw [(find?_none_iff f o.col).2 h]; rfl
+
+theorem has_iff_mem_names (f : LFrame) (n : Bytes) : f.has n = true ↔ n ∈ f.names := by
+  unfold LFrame.has LFrame.find? LFrame.names
+  rw [List.find?_isSome]
+  constructor
+  · rintro ⟨c, hc, h⟩; exact List.mem_map.2 ⟨c, hc, eq_of_beq h⟩
+  · intro h
+    obtain ⟨c, hc, rfl⟩ := List.mem_map.1 h
+    exact ⟨c, hc, beq_self_eq_true _⟩
+
+theorem has_congr_names (f g : LFrame) (h : g.names = f.names) (n : Bytes) : g.has n = f.has n := by
+  rw [Bool.eq_iff_iff, has_iff_mem_names, has_iff_mem_names, h]
+
+/-- No frame is an acceptable result of `Sort` when an order names an unknown column: the spec's verdict is an error. -/
+theorem isSortedResult_unknown (f out : LFrame) (os : List Order) (h : sortKeys f os = none) :
+    isSortedResult f out os = false := by
+  unfold isSortedResult
+  cases hk : sortKeys out os with
+  | none => rfl
+  | some keys =>
+    simp only []
+    cases hn : out.names == f.names
+    · simp
+    · exfalso
+      obtain ⟨o, ho, hu⟩ := (sortKeys_none_iff f os).1 h
+      have : sortKeys out os = none :=
+        (sortKeys_none_iff out os).2 ⟨o, ho, by rw [has_congr_names f out (eq_of_beq hn)]; exact hu⟩
+      rw [this] at hk; cases hk
+
+/-- The columns `Distinct` compares: the requested ones, or all. -/
+def distinctKeys (f : LFrame) (keyNames : List Bytes) : Option (List LCol) :=
+  (if keyNames.isEmpty then f.names else keyNames).mapM f.find?
+
+/-- **Distinct** has key columns iff every requested name is a column of the frame. -/
+theorem distinctKeys_none_iff (f : LFrame) (keyNames : List Bytes) :
+    distinctKeys f keyNames = none ↔ ∃ n ∈ keyNames, f.has n = false := by
+  unfold distinctKeys
+  rw [mapM_find_none_iff]
+  cases keyNames with
+  | nil =>
+    simp only [List.isEmpty_nil, if_true]
+    constructor
+    · rintro ⟨n, hn, h⟩
+      rw [(has_iff_mem_names f n).2 hn] at h; cases h
+    · rintro ⟨n, hn, _⟩; cases hn
+  | cons k ks => simp
+
+/-- … and without them no frame is an acceptable result. -/
+theorem isDistinctResult_unknown (f out : LFrame) (gbNull : Bool) (keyNames : List Bytes)
+    (h : distinctKeys f keyNames = none) : isDistinctResult f out gbNull keyNames = false := by
+  unfold distinctKeys at h
+  unfold isDistinctResult
+  simp only [h]
+
+/-! ### GroupBy / Aggregate -/
+
+/-- the name of the column an aggregation produces -/
+def aggName (a : Agg) : Bytes := if a.as.isEmpty then a.col else a.as
+
+/-- `a` cannot be computed although its column exists: its result name is taken (a grouping column or an earlier
+aggregate), or the function is not defined for the column's type -/
+def aggLate (f : LFrame) (taken : List Bytes) (a : Agg) : Bool :=
+  match f.find? a.col with
+  | none => false
+  | some c => taken.contains (aggName a) || (aggApply a.fn c.ty).isNone
+
+/-- some aggregation fails late, given the names of the columns built before it -/
+def aggsLate (f : LFrame) : List Bytes → List Agg → Bool
+  | _, [] => false
+  | taken, a :: as => aggLate f taken a || aggsLate f (taken ++ [aggName a]) as
+
+theorem contains_col_names (cols : List LCol) (n : Bytes) :
+    (cols.map (·.name)).contains n = cols.any (·.name == n) := by
+  rw [Bool.eq_iff_iff, List.contains_iff_mem, List.any_eq_true, List.mem_map]
+  constructor
+  · rintro ⟨c, hc, rfl⟩; exact ⟨c, hc, beq_self_eq_true _⟩
+  · rintro ⟨c, hc, h⟩; exact ⟨c, hc, eq_of_beq h⟩
+
+theorem go_none_iff (f : LFrame) (gs : List (List Nat)) (acc : List LCol) (aggs : List Agg) :
+    groupAggS.go f gs acc aggs = none ↔
+      (∃ a ∈ aggs, f.has a.col = false) ∨ aggsLate f (acc.map (·.name)) aggs = true := by
+  induction aggs generalizing acc with
+  | nil => simp [groupAggS.go, aggsLate]
+  | cons a as ih =>
+    unfold groupAggS.go aggsLate aggLate
+    cases hf : f.find? a.col with
+    | none =>
+      simp only [true_iff]
+      exact .inl ⟨a, List.mem_cons_self, (find?_none_iff f a.col).1 hf⟩
+    | some c =>
+      have hk : f.has a.col = true := by unfold LFrame.has; rw [hf]; rfl
+      simp only []
+      rw [← contains_col_names]
+      have hn : (if a.as.isEmpty = true then a.col else a.as) = aggName a := rfl
+      rw [hn]
+      cases ht : (acc.map (·.name)).contains (aggName a)
+      · cases ha : aggApply a.fn c.ty with
+        | none => simp
+        | some p =>
+          obtain ⟨rt, g⟩ := p
+          simp only [Bool.false_eq_true, if_false, Option.isNone_some, Bool.or_false, Bool.false_or]
+          rw [ih]
+          simp only [List.map_append, List.map_cons, List.map_nil, List.mem_cons]
+          constructor
+          · rintro (⟨b, hb, h⟩ | h)
+            · exact .inl ⟨b, .inr hb, h⟩
+            · exact .inr h
+          · rintro (⟨b, hb | hb, h⟩ | h)
+            · subst hb; rw [hk] at h; cases h
+            · exact .inl ⟨b, hb, h⟩
+            · exact .inr h
+      · simp
+
+theorem find?_name (f : LFrame) (n : Bytes) (c : LCol) (h : f.find? n = some c) : c.name = n := by
+  unfold LFrame.find? at h
+  have := List.find?_some h
+  exact eq_of_beq this
+
+theorem map_name_with_cells (keys : List LCol) (g : LCol → Array Cell) :
+    (keys.map (fun c => ({ c with cells := g c } : LCol))).map (·.name) = keys.map (·.name) := by
+  induction keys with
+  | nil => rfl
+  | cons k ks ih => simp only [List.map_cons, ih]
+
+theorem mapM_find_names (f : LFrame) (names : List Bytes) (ks : List LCol) (h : names.mapM f.find? = some ks) :
+    ks.map (·.name) = names := by
+  induction names generalizing ks with
+  | nil => simp at h; subst h; rfl
+  | cons n ns ih =>
+    rw [List.mapM_cons] at h
+    cases hn : f.find? n with
+    | none => simp [hn] at h
+    | some c =>
+      cases hns : ns.mapM f.find? with
+      | none => simp [hn, hns] at h
+      | some cs =>
+        simp [hn, hns] at h
+        subst h
+        simp [find?_name f n c hn, ih cs hns]
+
+/-- **GroupBy(keys).Aggregate(aggs)** is rejected iff a grouping column is unknown, or an aggregation names an unknown
+column, or — all columns known — an aggregation fails late: its result name is taken, or its function is not defined for
+the type of its column. -/
+theorem groupAggS_err_iff (f : LFrame) (gbNull : Bool) (keyNames : List Bytes) (aggs : List Agg) :
+    groupAggS f gbNull keyNames aggs = .err ↔
+      (∃ n ∈ keyNames, f.has n = false) ∨ (∃ a ∈ aggs, f.has a.col = false) ∨ aggsLate f keyNames aggs = true := by
+  unfold groupAggS
+  cases hk : keyNames.mapM f.find? with
+  | none => simp only [true_iff]; exact .inl ((mapM_find_none_iff f keyNames).1 hk)
+  | some keys =>
+    have hno : ¬ ∃ n ∈ keyNames, f.has n = false := fun h => by
+      rw [(mapM_find_none_iff f keyNames).2 h] at hk; cases hk
+    simp only []
+    split
+    · next hg =>
+      rw [go_none_iff, map_name_with_cells, mapM_find_names f keyNames keys hk] at hg
+      simp only [true_iff]
+      exact .inr hg
+    · next cols hg =>
+      constructor
+      · intro h; cases h
+      · rintro (h | h)
+        · exact absurd h hno
+        · exfalso
+          rw [(go_none_iff f _ _ aggs).2 (by
+            rw [map_name_with_cells, mapM_find_names f keyNames keys hk]
+            exact h)] at hg
+          cases hg
+
+/-! ### Apply: how the spec reads an instruction -/
+
+/-- the number of source columns of an instruction, as `applyInstr` reads it -/
+def instrArity (ins : Instr) : Nat :=
+  match ins.src1, ins.src2 with
+  | none, _ => 0
+  | some _, none => 1
+  | some _, some _ => 2
+
+/-- without a first source column the second one is not looked at -/
+theorem applyInstr_no_src1 (up : UpperOracle) (f : LFrame) (m : Nat → Bool) (ins : Instr) (b : Bool)
+    (h : ins.src1 = none) (x : Option Bytes) :
+    applyInstr up f m { ins with src2 := x } b = applyInstr up f m { ins with src2 := none } b := by
+  obtain ⟨dst, s1, s2, fn⟩ := ins
+  simp only at h
+  subst h
+  rfl
+
+/-- an unknown first source column is an error, whatever the function -/
+theorem applyInstr_unknown_src1 (up : UpperOracle) (f : LFrame) (m : Nat → Bool) (ins : Instr) (b : Bool) (s : Bytes)
+    (h : ins.src1 = some s) (hu : f.has s = false) : applyInstr up f m ins b = .err := by
+  obtain ⟨dst, s1, s2, fn⟩ := ins
+  simp only at h
+  subst h
+  have hf := (find?_none_iff f s).2 hu
+  cases s2 with
+  | none => simp only [applyInstr, hf]
+  | some t => simp only [applyInstr, hf]
+
+/-- an unknown second source column is an error, whatever the function -/
+theorem applyInstr_unknown_src2 (up : UpperOracle) (f : LFrame) (m : Nat → Bool) (ins : Instr) (b : Bool) (s t : Bytes)
+    (h1 : ins.src1 = some s) (h2 : ins.src2 = some t) (hu : f.has t = false) : applyInstr up f m ins b = .err := by
+  obtain ⟨dst, s1, s2, fn⟩ := ins
+  simp only at h1 h2
+  subst h1 h2
+  have hf := (find?_none_iff f t).2 hu
+  cases hs : f.find? s <;> simp only [applyInstr, hf, hs]
+
+/-! ### Equals: the shape checks -/
+
+theorem equalsS_shape (a b : LFrame) (h : a.n ≠ b.n ∨ a.names ≠ b.names) : equalsS a b = false := by
+  unfold equalsS
+  rcases h with h | h
+  · have : (a.n == b.n) = false := beq_false_of_ne h
+    simp [this]
+  · have : (a.names == b.names) = false := beq_false_of_ne h
+    simp [this]
+
 /-! ## Concrete instances -/
 
 section Examples
@@ -234,5 +504,14 @@ end Examples
 #print axioms selectS_err_iff
 #print axioms dropS_err_iff
 #print axioms copyS_err_iff
+#print axioms sortKeys_none_iff
+#print axioms isSortedResult_unknown
+#print axioms distinctKeys_none_iff
+#print axioms isDistinctResult_unknown
+#print axioms groupAggS_err_iff
+#print axioms applyInstr_no_src1
+#print axioms applyInstr_unknown_src1
+#print axioms applyInstr_unknown_src2
+#print axioms equalsS_shape
 
 end QF.Props.C10Sticky
